@@ -63,32 +63,47 @@ theorem spaceTry_len {conv : Nat → Option Bytes} {n : Nat} {bs : Bytes} (h : s
     · simp only [h1, ite_true] at h; cases h; exact h1
     · simp [h1] at h
 
-theorem firstTry_len {conv : Nat → Option Bytes} {u n : Nat} {bs : Bytes} (h : firstTry conv u n = some bs) : bs.length ≤ n := by
+theorem spaceTry_conv {conv : Nat → Option Bytes} {n : Nat} {bs : Bytes} (h : spaceTry conv n = some bs) : conv 0x20 = some bs := by
+  unfold spaceTry at h
+  cases hs : conv 0x20 with
+  | none => simp [hs] at h
+  | some sp =>
+    simp only [hs] at h
+    by_cases h1 : sp.length ≤ n
+    · simp only [h1, ite_true] at h; cases h; rfl
+    · simp [h1] at h
+
+variable {cfg : Cfg}
+
+theorem firstTry_some {conv : Nat → Option Bytes} {u n : Nat} {bs : Bytes} (h : firstTry cfg conv u n = some bs) :
+    conv u = some bs ∧ bs.length ≤ n ∧ atSign cfg bs u = false := by
   unfold firstTry at h
   cases hc : conv u with
   | none => simp [hc] at h
   | some b0 =>
     simp only [hc] at h
-    by_cases h1 : (decide (b0.length ≤ n) && !atSign b0 u) = true
-    · simp only [h1, ite_true] at h; cases h; simp at h1; exact h1.1
+    by_cases h1 : (decide (b0.length ≤ n) && !atSign cfg b0 u) = true
+    · simp only [h1, ite_true] at h; cases h; simp at h1; exact ⟨rfl, h1.1, h1.2⟩
     · simp [h1] at h
 
-theorem printUnicode_len {conv : Nat → Option Bytes} {u n : Nat} {bs : Bytes} (h : printUnicode conv u n = some bs) :
+theorem printUnicode_len {conv : Nat → Option Bytes} {u n : Nat} {bs : Bytes} (h : printUnicode cfg conv u n = some bs) :
     bs.length ≤ n := by
   unfold printUnicode at h
-  cases hf : firstTry conv u n with
-  | some b => simp only [hf] at h; cases h; exact firstTry_len hf
-  | none => simp only [hf] at h; exact spaceTry_len h
+  split at h
+  · cases h
+  · cases hf : firstTry cfg conv u n with
+    | some b => simp only [hf] at h; cases h; exact (firstTry_some hf).2.1
+    | none => simp only [hf] at h; exact spaceTry_len h
 
 theorem printCells_len {conv : Nat → Option Bytes} {size : Nat} : ∀ (cs : List Cell) (p out : Bytes),
-    p.length ≤ size → printCells conv size cs p = some out → out.length ≤ size := by
+    p.length ≤ size → printCells cfg conv size cs p = some out → out.length ≤ size := by
   intro cs
   induction cs with
   | nil => intro p out hp h; simp [printCells] at h; subst h; exact hp
   | cons c cs ih =>
     intro p out hp h
     unfold printCells at h
-    cases hu : printUnicode conv (effUnicode c) (size - p.length) with
+    cases hu : printUnicode cfg conv (effUnicode c) (size - p.length) with
     | none => simp [hu] at h
     | some bs =>
       simp only [hu] at h
@@ -96,7 +111,7 @@ theorem printCells_len {conv : Nat → Option Bytes} {size : Nat} : ∀ (cs : Li
       exact ih (p ++ bs) out (by simp; omega) h
 
 theorem printRows_len {conv : Nat → Option Bytes} {size : Nat} : ∀ (rows : List (List Cell)) (p out : Bytes),
-    p.length ≤ size → printRows conv size rows p = .ok (some out) → out.length ≤ size := by
+    p.length ≤ size → printRows cfg conv size rows p = .ok (some out) → out.length ≤ size := by
   intro rows
   induction rows with
   | nil => intro p out hp h; simp [printRows] at h; subst h; exact hp
@@ -105,12 +120,12 @@ theorem printRows_len {conv : Nat → Option Bytes} {size : Nat} : ∀ (rows : L
     cases rs with
     | nil =>
       simp only [printRows] at h
-      cases hc : printCells conv size r p with
+      cases hc : printCells cfg conv size r p with
       | none => simp [hc] at h
       | some o => simp [hc] at h; subst h; exact printCells_len r p o hp hc
     | cons r2 rs2 =>
       simp only [printRows] at h
-      cases hc : printCells conv size r p with
+      cases hc : printCells cfg conv size r p with
       | none => simp [hc] at h
       | some p1 =>
         simp only [hc] at h
@@ -125,7 +140,7 @@ theorem printRows_len {conv : Nat → Option Bytes} {size : Nat} : ∀ (rows : L
 
 /-- no store of the '\n' ever happens outside the buffer -/
 theorem printRows_no_fault {conv : Nat → Option Bytes} {size : Nat} : ∀ (rows : List (List Cell)) (p : Bytes),
-    ∀ f, printRows conv size rows p ≠ .error f := by
+    ∀ f, printRows cfg conv size rows p ≠ .error f := by
   intro rows
   induction rows with
   | nil => intro p f h; simp [printRows] at h
@@ -135,7 +150,7 @@ theorem printRows_no_fault {conv : Nat → Option Bytes} {size : Nat} : ∀ (row
     | nil => simp [printRows] at h
     | cons r2 rs2 =>
       simp only [printRows] at h
-      cases hc : printCells conv size r p with
+      cases hc : printCells cfg conv size r p with
       | none => simp [hc] at h
       | some p1 =>
         simp only [hc] at h
@@ -146,10 +161,10 @@ theorem printRows_no_fault {conv : Nat → Option Bytes} {size : Nat} : ∀ (row
           simp only [h2, ite_true] at h
           exact ih _ f h
 
-theorem printUnicode_exact {conv : Nat → Option Bytes} {c : Cell} {e : Bytes} {n : Nat}
-    (he : encUnbounded conv c = some e) (hn : e.length ≤ n) : printUnicode conv (effUnicode c) n = some e := by
+theorem printUnicode_exact {conv : Nat → Option Bytes} {c : Cell} {e : Bytes} {n : Nat} (hA : AtFits cfg conv)
+    (he : encUnbounded cfg conv c = some e) (hn : e.length ≤ n) : printUnicode cfg conv (effUnicode c) n = some e := by
   unfold encUnbounded at he
-  unfold printUnicode firstTry spaceTry
+  unfold printUnicode firstTry spaceTry tooBig
   simp only at he
   cases hc : conv (effUnicode c) with
   | none =>
@@ -157,39 +172,44 @@ theorem printUnicode_exact {conv : Nat → Option Bytes} {c : Cell} {e : Bytes} 
     simp [he, hn]
   | some b0 =>
     simp only [hc] at he ⊢
-    cases hat : atSign b0 (effUnicode c) with
+    cases hat : atSign cfg b0 (effUnicode c) with
     | true =>
       simp only [hat, ite_true] at he
-      simp [he, hn]
+      by_cases hE : cfg.printE2big = true
+      · have := hA hE _ _ _ hc hat he
+        have hb : ¬ n < b0.length := by omega
+        simp [hb, he, hn]
+      · simp [hE, he, hn]
     | false =>
       simp only [hat, Bool.false_eq_true, ite_false] at he
       cases he
-      simp [hn]
+      have hb : ¬ n < e.length := by omega
+      simp [hn, hb]
 
-theorem printCells_exact {conv : Nat → Option Bytes} {size : Nat} : ∀ (cs : List Cell) (p e : Bytes),
-    rowText conv cs = some e → p.length + e.length ≤ size → printCells conv size cs p = some (p ++ e) := by
+theorem printCells_exact {conv : Nat → Option Bytes} {size : Nat} (hA : AtFits cfg conv) : ∀ (cs : List Cell) (p e : Bytes),
+    rowText cfg conv cs = some e → p.length + e.length ≤ size → printCells cfg conv size cs p = some (p ++ e) := by
   intro cs
   induction cs with
   | nil => intro p e h _; simp [rowText] at h; subst h; simp [printCells]
   | cons c cs ih =>
     intro p e h hs
     unfold rowText at h
-    cases h1 : encUnbounded conv c with
+    cases h1 : encUnbounded cfg conv c with
     | none => simp [h1] at h
     | some a =>
-      cases h2 : rowText conv cs with
+      cases h2 : rowText cfg conv cs with
       | none => simp [h1, h2] at h
       | some b =>
         simp only [h1, h2] at h
         cases h
         unfold printCells
-        have := printUnicode_exact (n := size - p.length) h1 (by simp at hs; omega)
+        have := printUnicode_exact (n := size - p.length) hA h1 (by simp at hs; omega)
         simp only [this]
         have := ih (p ++ a) b h2 (by simp at hs ⊢; omega)
         simpa [List.append_assoc] using this
 
-theorem printRows_exact {conv : Nat → Option Bytes} {size : Nat} : ∀ (rows : List (List Cell)) (p e : Bytes),
-    tableText conv rows = some e → p.length + e.length ≤ size → printRows conv size rows p = .ok (some (p ++ e)) := by
+theorem printRows_exact {conv : Nat → Option Bytes} {size : Nat} (hA : AtFits cfg conv) : ∀ (rows : List (List Cell)) (p e : Bytes),
+    tableText cfg conv rows = some e → p.length + e.length ≤ size → printRows cfg conv size rows p = .ok (some (p ++ e)) := by
   intro rows
   induction rows with
   | nil => intro p e h _; simp [tableText] at h; subst h; simp [printRows]
@@ -199,24 +219,104 @@ theorem printRows_exact {conv : Nat → Option Bytes} {size : Nat} : ∀ (rows :
     | nil =>
       simp only [tableText] at h
       simp only [printRows]
-      rw [printCells_exact r p e h hs]
+      rw [printCells_exact hA r p e h hs]
     | cons r2 rs2 =>
       simp only [tableText] at h
-      cases h1 : rowText conv r with
+      cases h1 : rowText cfg conv r with
       | none => simp [h1] at h
       | some a =>
-        cases h2 : tableText conv (r2 :: rs2) with
+        cases h2 : tableText cfg conv (r2 :: rs2) with
         | none => simp [h1, h2] at h
         | some b =>
           simp only [h1, h2] at h
           cases h
           simp only [printRows]
           have hl : p.length + a.length + 1 + b.length ≤ size := by simp at hs; omega
-          rw [printCells_exact r p a h1 (by omega)]
+          rw [printCells_exact hA r p a h1 (by omega)]
           have e1 : ¬ (size - (p ++ a).length < 1) := by simp; omega
           have e2 : (p ++ a).length < size := by simp; omega
           simp only [e1, e2, ite_true, ite_false]
           have := ih (p ++ a ++ [0x0A]) b h2 (by simp; omega)
           simpa [List.append_assoc] using this
+
+/-! ### with the F27a repair every successful result is the table text -/
+
+theorem printUnicode_sound {conv : Nat → Option Bytes} {c : Cell} {n : Nat} {bs : Bytes} (hE : cfg.printE2big = true)
+    (h : printUnicode cfg conv (effUnicode c) n = some bs) : encUnbounded cfg conv c = some bs := by
+  unfold printUnicode at h
+  unfold encUnbounded
+  simp only
+  by_cases hT : tooBig conv (effUnicode c) n = true
+  · simp [hE, hT] at h
+  · simp only [hE, hT, Bool.and_false, Bool.false_eq_true, ite_false] at h
+    cases hf : firstTry cfg conv (effUnicode c) n with
+    | some b =>
+      simp only [hf] at h; cases h
+      obtain ⟨h1, _, h3⟩ := firstTry_some hf
+      simp [h1, h3]
+    | none =>
+      simp only [hf] at h
+      have hsp := spaceTry_conv h
+      cases hc : conv (effUnicode c) with
+      | none => simpa using hsp
+      | some b0 =>
+        simp only
+        have hfit : b0.length ≤ n := by
+          unfold tooBig at hT; simp [hc] at hT; exact hT
+        cases hat : atSign cfg b0 (effUnicode c) with
+        | true => simpa using hsp
+        | false =>
+          unfold firstTry at hf
+          simp [hc, hfit, hat] at hf
+
+theorem printCells_sound {conv : Nat → Option Bytes} {size : Nat} (hE : cfg.printE2big = true) : ∀ (cs : List Cell) (p out : Bytes),
+    printCells cfg conv size cs p = some out → ∃ e, rowText cfg conv cs = some e ∧ out = p ++ e := by
+  intro cs
+  induction cs with
+  | nil => intro p out h; simp [printCells] at h; subst h; exact ⟨[], rfl, by simp⟩
+  | cons c cs ih =>
+    intro p out h
+    unfold printCells at h
+    cases hu : printUnicode cfg conv (effUnicode c) (size - p.length) with
+    | none => simp [hu] at h
+    | some bs =>
+      simp only [hu] at h
+      obtain ⟨e, he, ho⟩ := ih (p ++ bs) out h
+      refine ⟨bs ++ e, ?_, by rw [ho, List.append_assoc]⟩
+      unfold rowText
+      simp [printUnicode_sound hE hu, he]
+
+theorem printRows_sound {conv : Nat → Option Bytes} {size : Nat} (hE : cfg.printE2big = true) : ∀ (rows : List (List Cell)) (p out : Bytes),
+    printRows cfg conv size rows p = .ok (some out) → ∃ e, tableText cfg conv rows = some e ∧ out = p ++ e := by
+  intro rows
+  induction rows with
+  | nil => intro p out h; simp [printRows] at h; subst h; exact ⟨[], rfl, by simp⟩
+  | cons r rs ih =>
+    intro p out h
+    cases rs with
+    | nil =>
+      simp only [printRows] at h
+      cases hc : printCells cfg conv size r p with
+      | none => simp [hc] at h
+      | some o =>
+        simp [hc] at h; subst h
+        simpa [tableText] using printCells_sound hE r p o hc
+    | cons r2 rs2 =>
+      simp only [printRows] at h
+      cases hc : printCells cfg conv size r p with
+      | none => simp [hc] at h
+      | some p1 =>
+        simp only [hc] at h
+        obtain ⟨a, ha, hp1⟩ := printCells_sound hE r p p1 hc
+        by_cases h1 : size - p1.length < 1
+        · simp [h1] at h
+        · simp only [h1, ite_false] at h
+          by_cases h2 : p1.length < size
+          · simp only [h2, ite_true] at h
+            obtain ⟨b, hb, ho⟩ := ih (p1 ++ [0x0A]) out h
+            refine ⟨a ++ [0x0A] ++ b, ?_, ?_⟩
+            · simp only [tableText, ha, hb]
+            · rw [ho, hp1]; simp [List.append_assoc]
+          · simp [h2] at h
 
 end Zvbi.Export
